@@ -42,7 +42,7 @@ def local_tz():
 
 
 def dt_instants(j):
-    """Acceptable UTC instants (ms resolution, floor and round of the microseconds, clamped to 999) for a
+    """Acceptable UTC instants (ms resolution: floor, round clamped to 999, round with carry) for a
     date-time value given as {'$dt'..} or a 'Y/m/d H:M:S' string."""
     if isinstance(j, str):
         dt = None
@@ -61,7 +61,9 @@ def dt_instants(j):
     dt = dt.astimezone(timezone.utc)
     base = dt.replace(microsecond=0)
     us = dt.microsecond
-    out = {base + timedelta(milliseconds=us // 1000), base + timedelta(milliseconds=min(round(us / 1000), 999))}
+    # floor; round clamped to 999 (what the library does); round with the carry into the next second
+    out = {base + timedelta(milliseconds=us // 1000), base + timedelta(milliseconds=min(round(us / 1000), 999)),
+           base + timedelta(milliseconds=round(us / 1000))}
     return out
 
 
